@@ -106,6 +106,7 @@ class Model:
         self.wlists = {}
         self.udqs = {}         # name -> kind
         self.actions = []
+        self.action_defs = {}   # name -> dict(body=[texts], qkind=None|'P'|'I', def_step=int)
         self.date = [1, 0, 2020]   # day, month index, year
         self.step = 0
 
@@ -189,7 +190,7 @@ def kw_wconinje(draw, m):
     w = draw(st.sampled_from(_wells(m, "I")))
     typ = m.wells[w]["injtype"]
     status = draw(st.sampled_from(["OPEN", "OPEN", "SHUT", "STOP"]))
-    mode = draw(st.sampled_from(["RATE", "RESV", "BHP", "GRUP"]))
+    mode = draw(st.sampled_from(["RATE", "RESV", "BHP"]))
     r = fnum(draw(rate))
     rv = draw(st.sampled_from(["1*", "500"]))
     if mode == "RESV":
@@ -375,6 +376,9 @@ ACTION_BODY = ["welopen", "wconprod", "wconinje", "weltarg", "wefac", "gconprod"
                "nextstep"]
 
 
+Q_KINDS = {"welopen": None, "wconprod": "P", "wconinje": "I", "weltarg": None, "wefac": None, "wgrupcon": None, "wtest": None, "wecon": "P"}
+
+
 @st.composite
 def kw_actionx(draw, m, body_kinds=None):
     name = "A%d" % (len(m.actions) + 1)
@@ -385,18 +389,37 @@ def kw_actionx(draw, m, body_kinds=None):
         ["DAY > 3"], ["WWCT 'P*' > 0.5 AND", "MNTH >= FEB"]]))
     body = []
     mm = m.clone()
+    qkind = "none"
     for _ in range(draw(st.integers(1, 3))):
         kind = draw(st.sampled_from(body_kinds or ACTION_BODY))
         t = draw(gen_kw(mm, kind))
-        if t:
-            body.append(t)
+        if not t:
+            continue
+        import re as _re
+        if kind == "welopen" and _re.search(r"' \d+ \d+ \d+ /", t):
+            # connection level WELOPEN: per-report-step semantics (automatic shut-in), exempted by the C04 statement
+            t = _re.sub(r"' \d+ \d+ \d+ /", "' /", t)
+        if kind in Q_KINDS and draw(st.booleans()):
+            # use the matching-wells placeholder instead of the explicit well (whole-well records only)
+            import re as _re
+            mt = _re.match(r"^(\w+)\n '(\w+)' ", t)
+            if mt and mt.group(2) in mm.wells and not _re.search(r"' \d+ \d+ \d+ /", t):
+                wk = mm.wells[mt.group(2)]["kind"]
+                need = Q_KINDS[kind] or (wk if kind == "weltarg" else None)
+                if qkind in ("none", need) or need is None:
+                    t = t.replace("'%s'" % mt.group(2), "'?'", 1)
+                    if need is not None:
+                        qkind = need
+                    elif qkind == "none":
+                        qkind = "any"
+        body.append(t)
     if not body:
         body = ["NEXTSTEP\n 1 /\n"]
-    # matched-well placeholder in the first record of well keywords
     text = "ACTIONX\n '%s' %d %s /\n" % (name, nrun, draw(st.sampled_from(["", "10", "0.5"])))
     for c in conds:
         text += " %s /\n" % c
     text += "/\n" + "".join(body) + "ENDACTIO\n"
+    m.action_defs[name] = {"body": body, "qkind": qkind, "def_step": m.step}
     return text
 
 
@@ -434,10 +457,10 @@ def gen_kw(draw, m, kind):
 
 
 @st.composite
-def gen_time(draw, m):
+def gen_time(draw, m, single=False):
     """-> (text, number of report steps)"""
     if draw(st.booleans()):
-        n = draw(st.integers(1, 2))
+        n = 1 if single else draw(st.integers(1, 2))
         recs = []
         for _ in range(n):
             d, mo, y = m.date
@@ -447,14 +470,14 @@ def gen_time(draw, m):
             m.date = [1, mo, y]
             recs.append(" 1 '%s' %d /" % (MONTHS[mo], y))
         return "DATES\n" + "\n".join(recs) + "\n/\n", n
-    vals = draw(st.lists(st.sampled_from([1, 5, 10, 30.5]), min_size=1, max_size=3))
+    vals = draw(st.lists(st.sampled_from([1, 5, 10, 30.5]), min_size=1, max_size=1 if single else 3))
     # keep the model's calendar consistent: TSTEP days are added approximately (dates stay on day 1 + offset)
     m.date = [1, m.date[1], m.date[2] + 1]      # jump a year ahead of any TSTEP sum (<= 92 days)
     return "TSTEP\n %s /\n" % " ".join(fnum(v) for v in vals), len(vals)
 
 
 @st.composite
-def gen_block(draw, m, first=False, kinds=None, maxkw=6):
+def gen_block(draw, m, first=False, kinds=None, maxkw=6, single=False):
     kws = []
     if first:
         # make sure there is something to work with
@@ -468,7 +491,7 @@ def gen_block(draw, m, first=False, kinds=None, maxkw=6):
         t = draw(gen_kw(m, kind))
         if t:
             kws.append(t)
-    ttxt, n = draw(gen_time(m))
+    ttxt, n = draw(gen_time(m, single))
     m.step += n
     return {"kws": kws, "time": ttxt, "nsteps": n}
 
